@@ -239,11 +239,15 @@ def run(ck):
                     gx, gy = sc[0][7].get("x"), sc[0][7].get("y")
                     # the phase network's auxiliary bias is held at its documented value 0 (C02's quantifier, C20.R5):
                     # compare under that invariant
+                    # (only for the paired form expand=False, where the library's own routine carries that bias along; the matrix
+                    # form expand=True - the one the training gradient uses - is compared for every value of it)
                     dat = Rp["d"].single_atom()
-                    if isinstance(dat, T.Sym):
+                    if isinstance(dat, T.Sym) and not expand:
                         gx = T.rename_syms(gx, {dat.name: T.ZERO}) if gx is not None else None
                         gy = T.rename_syms(gy, {dat.name: T.ZERO}) if gy is not None else None
+                    bias_ = {t_.single_atom().name for R_ in (Ra, Rp) for r_, t_ in R_.items() if r_ in ("b", "c", "d") and isinstance(t_.single_atom(), T.Sym)}
                     for nm, got, want in (("real", gx, x_ref), ("imaginary", gy, f_ref)):
+                        got, want = drop_bias_broadcast(got, bias_), drop_bias_broadcast(want, bias_)
                         d = lin_diff(got, want)
                         ck.check(diff_verdict(d), "C03.R6", inst + ":%s part of the sigmoid argument = Pi's argument" % nm, psite,
                                  "the %s part of the argument of the sigmoid in pi_grad differs from the argument of Pi ((U_am s + d + U_am s' + d)/2 resp. (U_ph s - U_ph s')/2): %s" % (nm, diff_msg(d)), got=got, want=want)
